@@ -8,7 +8,7 @@ import os
 import sys
 import traceback
 
-from . import report, symnum
+from . import report, robust, symnum
 
 
 def main() -> int:
@@ -21,6 +21,21 @@ def main() -> int:
     a = ap.parse_args()
     if a.replay:
         return report.replay_main(a.replay)
+    import tempfile
+
+    fd, elog = tempfile.mkstemp(prefix=f"verif-{a.pid}-escalations-")
+    os.close(fd)
+    os.environ[robust.LOG_ENV] = elog
+    try:
+        return _run(a)
+    finally:
+        try:
+            os.unlink(elog)
+        except OSError:
+            pass
+
+
+def _run(a: argparse.Namespace) -> int:
     try:
         n = symnum.selftest()
         mod = importlib.import_module(a.module)
